@@ -28,6 +28,8 @@ func runC02(c *Ctx, r *Report) {
 	r.Doc("R-C02.6", "bounded merge recomputes heads over the truncated list")
 	r.Doc("R-C02.7", "a refused append or merge leaves the entry index, the predecessor index and the heads untouched (a phantom link or entry makes a later merge drop a true head or resurrect a stale one)")
 	refusedOperationsLeaveNoTrace(c, r, "R-C02.7")
+	r.Doc("R-C02.8", "the loops that maintain heads and the predecessor index (Append, Join, FindHeads, NewLog) process every element")
+	loopsComplete(c, r, "R-C02.8", func(fn *Fn) bool { return rootNamed(fn, "Append", "Join", "FindHeads", "NewLog") }, "a predecessor link is not indexed or a candidate head is not examined: referenced entries stay heads, or heads are missed")
 
 	findHeadsShape(c, r, "R-C02.1")
 
